@@ -2,9 +2,10 @@ import SigModel.Model.ConcCreate
 import Oracle.Util
 /- suite "conc", get-or-create of the segstore table (Model/ConcCreate.lean; see harness/cmd/corr/c11_create.go):
 
-     c11c <S> <label> …     label ::= c<t> | f<i> | e<i>        (t < 16: ingest call t on stream t mod S; i < S)
+     c11c <S> <label> …     label ::= c<t> | f<i> | e<i> | n<i>    (t < 16: ingest call t on stream t mod S; i < S)
 
-   c<t>: next step of call t (first: start + getSegStore); f<i>: flush + rotation of the registered store of
+   c<t>: next step of call t (first: start + getSegStore; an AddEntry on a store that removeStaleSegments has
+   removed is logged as `append` and appends nothing: the call's next step is getSegStore again); f<i>: flush + rotation of the registered store of
    stream i; e<i>: removeStaleSegments on the (aged) registered store of stream i.  A label whose step is not
    enabled (needs allSegStoresLock while a call holds it) or has no effect is skipped and not logged.
    After the schedule the calls are completed (the lock holder first, then by id).  Answer:
@@ -24,11 +25,14 @@ def num? (cs : List Char) : Option Nat :=
   if cs.isEmpty || cs.length > 6 || !(cs.all Char.isDigit) || (cs.length > 1 && cs.head? == some '0') then none
   else some (digitsVal cs)
 
-def parseLabel (S : Nat) (t : String) : Option Label :=
+/-- `n<i>` (a removeStaleSegments pass over stores that are seconds old: STALE_SEGMENT_DELETION_SECONDS = 900 s) is
+well-formed and has no step in the model: `some none` -/
+def parseLabel (S : Nat) (t : String) : Option (Option Label) :=
   match t.toList with
-  | 'c' :: r => (num? r).bind fun n => if n < 16 then some (.call n (n % S)) else none
-  | 'f' :: r => (num? r).bind fun n => if n < S then some (.flush n) else none
-  | 'e' :: r => (num? r).bind fun n => if n < S then some (.evict n) else none
+  | 'c' :: r => (num? r).bind fun n => if n < 16 then some (some (.call n (n % S))) else none
+  | 'f' :: r => (num? r).bind fun n => if n < S then some (some (.flush n)) else none
+  | 'e' :: r => (num? r).bind fun n => if n < S then some (some (.evict n)) else none
+  | 'n' :: r => (num? r).bind fun n => if n < S then some none else none
   | _ => none
 
 def stepName : CStep → String
@@ -40,6 +44,7 @@ def logOf (s : St) : Label → Option String
   | .call t _ =>
     match (s.thread t).pc with
     | .idle => if s.lock.isNone then some s!"{t}:get" else none
+    | .retry => if s.lock.isNone then some s!"{t}:get" else none
     | .create [] => none
     | .create (a :: _) => if a == .lock && s.lock.isSome then none else some s!"{t}:{stepName a}"
     | .append => some s!"{t}:append"
@@ -90,7 +95,8 @@ def createOp (args : List String) : String :=
       if S < 1 || S > 4 then "bad-op" else
       match toks.mapM (parseLabel S) with
       | none => "bad-op"
-      | some labels =>
+      | some labels0 =>
+        let labels := labels0.filterMap id
         let cfg := Cfg.real
         let a := drain cfg 400 (labels.foldl (advance cfg) { s := init })
         let s2 := a.s
